@@ -14,7 +14,28 @@ VHDL_ASSUME = [
     "numeric_std / std_logic_1164 operator semantics are those transcribed in specs/cohdl_semantics.py (no VHDL tool in the sandbox); counterexamples are replayed against the Python code only",
 ]
 
+C05_MODULES = ["contracts.core_models", "contracts.c09_arith", "contracts.c09_bounded", "contracts.c05_convert", "contracts.c05_format_cast"]
+
 PROPERTIES = {
+    "C05": {
+        "modules": C05_MODULES,
+        "level": "proof",
+        "explanation": "acceptance and converted value of every primitive construction / assignment (Unsigned, Signed, BitVector, Bit, BitState) are proved equal to the conversion matrix of the statement for all widths and values; the backend cast selection (format_cast) is proved, for every (target root kind, view, whole/slice, value kind, literal/run-time) combination the front end accepts and all widths, to emit text whose numeric_std type is the declared object's type and whose bits are the converted bits; bit copies are bounded-checked natively",
+        "assumptions": COMMON_ASSUME + BITLEVEL_ASSUME + VHDL_ASSUME + [
+            "the bit-copy part of _assign (Span.apply_zip, bin() round trips) is opaque to the prover and assumed not to raise: acceptance is proved, the stored value is checked by bounded native enumeration only",
+            "format_cast lemma assumes the operand text has the VHDL type of the value's CoHDL type (format_value / format_vhdl_cast establish it; format_vhdl_cast is under contract as well)",
+            "a backend AssertionError for a pair the front end accepts counts as a compile-time rejection (observed: literal Signed assigned to a .signed view of an Unsigned object)",
+            "not covered: the qualified-object assignment replacements of _type_qualifier.py, _Redirect/_try_join merges and port connection (all funnel into the _assign contracts above, but that funnelling is not under contract yet)",
+        ],
+        "canaries": [
+            {"name": "cast-resize-width", "contract": "cohdl._compiler.backend.vhdl._vhdl_repr:VhdlScope.format_cast", "case": "Unsigned.unsigned.whole<-Unsigned.tq", "file": "cohdl/_compiler/backend/vhdl/_vhdl_repr.py",
+             "old": "                    else:\n                        assert target_type.width > value_type.width\n                        return f\"resize({value_str}, {target_type.width})\"\n                elif issubclass(value_type, Signed):\n                    if issubclass(target_type, Signed):\n                        if target_type.width != value_type.width:\n                            assert target_type.width > value_type.width\n                            value_str = f\"resize({value_str}, {target_type.width})\"\n                    else:\n                        assert target_type.width == value_type.width\n\n                    return f\"unsigned(std_logic_vector({value_str}))\"",
+             "new": "                    else:\n                        assert target_type.width > value_type.width\n                        return f\"resize({value_str}, {value_type.width})\"\n                elif issubclass(value_type, Signed):\n                    if issubclass(target_type, Signed):\n                        if target_type.width != value_type.width:\n                            assert target_type.width > value_type.width\n                            value_str = f\"resize({value_str}, {target_type.width})\"\n                    else:\n                        assert target_type.width == value_type.width\n\n                    return f\"unsigned(std_logic_vector({value_str}))\""},
+            {"name": "assign-narrowing", "contract": "cohdl._core._unsigned:Unsigned._assign", "case": "unsigned", "file": "cohdl/_core/_unsigned.py",
+             "old": "                other.width <= self.width\n            ), f\"target width {self.width} is less than source width {other.width}\"",
+             "new": "                other.width <= self.width + 1\n            ), f\"target width {self.width} is less than source width {other.width}\""},
+        ],
+    },
     "C09": {
         "modules": ["contracts.core_models", "contracts.c09_arith", "contracts.c09_bounded"],
         "level": "proof",
